@@ -169,6 +169,44 @@ def gen_cases(tier, seed):
             c["ndv"] = ndv
             c["steps"] = [[[z, (ndv if v == ND else v), cnt] for z, v, cnt in s_] for s_ in steps]
         add(c)
+    # neighbours of the sentinel: valid observations one or a few representable steps (or a relative 1e-7 .. 3e-6) away from
+    # the nodata value - "is nodata" is an exact comparison, not a tolerance match (float64 sentinels stay at 1e300 in
+    # magnitude: a zone sum of several values next to the float64 maximum overflows any float64 accumulator, out of claim)
+    def neighbours(ndv, dtype):
+        if dtype in ("int16", "int32"):
+            info = np.iinfo(dtype)
+            return [int(ndv) + d for d in (1, -1, 2, -3, 100, -128, 256, -300) if info.min <= int(ndv) + d <= info.max]
+        ft = np.dtype(dtype).type
+        out = []
+        with np.errstate(over="ignore"):
+            for direction in (np.inf, -np.inf):
+                x = ft(ndv)
+                for _k in range(3):
+                    x = np.nextafter(x, ft(direction))
+                    if np.isfinite(x):
+                        out.append(float(x))
+            for f in (1 + 1e-7, 1 - 1e-7, 1 + 3e-6, 1 - 3e-6):
+                x = ft(ndv * f)
+                if np.isfinite(x) and float(x) != float(ft(ndv)):
+                    out.append(float(x))
+        return out
+
+    apis = ["kernel", "accessor", "accessor_dask"]
+    k = 0
+    for dtype, ndvs in (("int16", [ND, -32768, 32767, 255]), ("int32", [2147483647, -2147483648, ND, 16777216]),
+                        ("float32", [ND, -3.4028234663852886e38, 255.0, 65535.0]), ("float64", [ND, 1e20, -1e300, 255.0])):
+        for ndv in ndvs if not quick else ndvs[: 3 if dtype != "float64" else 4]:
+            nb = neighbours(ndv, dtype)
+            if not nb:
+                continue
+            ny, nx = rng.choice([(2, 4), (3, 3), (1, 6)])
+            lay = layout(ny * nx, 3, [1, 1, 2])
+            steps = [[[z, (ndv if rng.random() < 0.25 else rng.choice(nb) if rng.random() < 0.7 else rng.randint(1, 50)), cnt] for z, cnt in lay] for _t in range(2)]
+            c = {"api": apis[k % 3], "steps": steps, "shape": [ny, nx], "dtype": dtype, "nz": 4, "bits": [24, 53][k % 2], "family": "near-sentinel"}
+            if ndv != ND:
+                c["ndv"] = ndv
+            k += 1
+            add(c)
     # large zones in run-length form
     big = [(400, 250), (1000, 1000), (4200, 4200)] if quick else [(400, 250), (1000, 1000), (3000, 3000), (5000, 5000)]
     for ny, nx in big:
